@@ -110,6 +110,8 @@ def main():
                                             "note": "field(istream&) suspends the caller's stream exception mask and restores it in a destructor that swallows the re-check failure - the correct version of seed C08d"}
     index["benign_strided_view_strides"] = {"patch": "mutants/benign_strided_view_strides.patch", "properties": [], "silent": ["C16", "C01", "C14", "C05", "C13"],
                                             "note": "row-major strides worked out once per VIEW in its constructor (no shared state) - the correct version of seed C16d; the view grows by 8N bytes"}
+    index["benign_strided_move_resets_source"] = {"patch": "mutants/benign_strided_move_resets_source.patch", "properties": [], "silent": ["C12", "C05", "C15"],
+                                                  "note": "strided move operations zero the moved-from extents, with a self-assignment guard - the correct version of seed C12e"}
     index["benign_hilbert_thread_local_memo"] = {"patch": "mutants/benign_hilbert_thread_local_memo.patch", "properties": [], "silent": ["C16", "C14", "C01", "C05"],
                                                  "note": "per-thread (thread_local) memo of the last Hilbert index - the correct version of seed C16"}
     # seeded changes delivered by independent sub-agents (seeded/<id>/meta.json carries "check_with")
